@@ -77,7 +77,9 @@ def typed_literal_graphs():
 def iri_graphs():
     """IRIs that stress prefix splitting and relative / prefixed spelling"""
     iris = [EX + "a.b", EX + "a.", EX + "1a", EX + "a%20b", EX + "a/b", EX + "a#b", EX, "http://ex.example/ns", "urn:x:y", "http://ex.example/ns#a-b_c", "http://ex.example/é",
-            "http://ex.example/ns#a(b)", "http://other.example/p?x=1&y=2", "mailto:a@b.example", "http://ex.example/ns#", "http://ex.example/a,b", "http://ex.example/a;b", "http://ex.example/~a"]
+            "http://ex.example/ns#a(b)", "http://other.example/p?x=1&y=2", "mailto:a@b.example", "http://ex.example/ns#", "http://ex.example/a,b", "http://ex.example/a;b", "http://ex.example/~a",
+            # schemes with '+', '-', '.' and digits (RFC 3986: ALPHA *( ALPHA / DIGIT / "+" / "-" / "." ))
+            "svn+ssh://host.example/repo/trunk", "coap+tcp://h.example/x", "view-source:http://ex.example/", "z39.50s://h.example/db?q", "x-custom.v2:thing", "h323:user@h.example"]
     for i, u in enumerate(iris):
         yield ("iri-obj:" + u, [[S1, P1, I(u)], [I(u), P2, S2]], True)
     # predicates: splittable ones round-trip everywhere, unsplittable ones cannot be written as RDF/XML element names
